@@ -60,7 +60,13 @@ func c20(c *Ctx) {
 				eachInstr(f, func(i ssa.Instruction) {
 					if fa, ok := i.(*ssa.FieldAddr); ok && fieldVar(fa.X.Type(), fa.Field) == cf {
 						for _, ref := range *fa.Referrers() {
-							if _, ok := ref.(ssa.CallInstruction); ok {
+							if ci, ok := ref.(ssa.CallInstruction); ok {
+								// reservations are made by atomic add and never taken back: a store / swap / compare-and-swap
+								// of the cursor can rewind it past a region another requester was given in the meantime
+								cn := calleeName(ci.Common())
+								if strings.HasPrefix(cn, "sync/atomic.Store") || strings.HasPrefix(cn, "sync/atomic.Swap") || strings.HasPrefix(cn, "sync/atomic.CompareAndSwap") {
+									r.Bad("C20.R1", "reserve cursor rewound in "+shortName(f), p.Pos(posOf(ref)), "the reserve cursor is overwritten ("+cn+") instead of only ever advanced by an atomic add: a value loaded earlier is written back after another requester reserved, and the same region is handed out twice")
+								}
 								continue
 							}
 							r.Bad("C20.R1", "plain access of reserve cursor in "+shortName(f), p.Pos(posOf(ref)), "the reserve cursor is read or written without sync/atomic outside package init: concurrent requesters can receive overlapping regions")
@@ -265,6 +271,42 @@ func c20(c *Ctx) {
 			lenFromParam := dependsOn(args[2], func(v ssa.Value) bool { _, ok := v.(*ssa.Parameter); return ok })
 			r.Check(okP && prot == 7, "C20.R4", "mmap prot in "+shortName(mmapFn), p.Pos(posOf(cs)), "PROT_READ|PROT_WRITE|PROT_EXEC", "stub mapping is not requested readable+writable+executable")
 			r.Check(okF && flags&0x20 != 0, "C20.R4", "mmap flags in "+shortName(mmapFn), p.Pos(posOf(cs)), "anonymous mapping", "stub mapping is not anonymous")
+			// the region handed out is the mapping made by this very call (no carving of regions out of a remembered mapping)
+			okOwn := true
+			nSucc := 0
+			if ei := errIndex(mmapFn.Signature); ei >= 0 {
+				for _, ret := range returnsOf(mmapFn) {
+					if !isNilConst(retResult(ret, ei)) {
+						continue
+					}
+					nSucc++
+					for k := range ret.Results {
+						if k == ei {
+							continue
+						}
+						fromCall := false
+						for _, a := range origins(retResult(ret, k)) {
+							if a.Kind == "global" {
+								okOwn = false
+							}
+						}
+						if dependsOn(retResult(ret, k), func(v ssa.Value) bool {
+							ex, ok := v.(*ssa.Extract)
+							return ok && ex.Tuple == cs.(ssa.Value)
+						}) || slicePtrDependsOn(retResult(ret, k), func(v ssa.Value) bool {
+							ex, ok := v.(*ssa.Extract)
+							return ok && ex.Tuple == cs.(ssa.Value)
+						}) {
+							fromCall = true
+						}
+						if !fromCall {
+							okOwn = false
+						}
+					}
+				}
+			}
+			r.Check(okOwn && nSucc > 0, "C20.R4", "mapped region handed out is this call's mapping in "+shortName(mmapFn), p.Pos(posOf(cs)), "address and bytes derive from the result of this mmap call",
+				"the region returned by the mapping allocator is not (only) the mapping this call made: regions carved out of a remembered mapping need their own bounds and alignment accounting, and an error there hands out overlapping or out-of-mapping memory")
 			r.Check(lenFromParam, "C20.R4", "mmap length in "+shortName(mmapFn), p.Pos(posOf(cs)), "length is the request", "mapped length is not the requested length")
 		}
 	}
